@@ -160,6 +160,18 @@ CHECKS = {
             "the hook clock ticks after a fixed number of reads (a frozen clock would never end the generator's wait); lifetimes that start with "
             "the clock level with or behind the newest stored id are matched to the generator-restarts-from-zero finding",
             "DESIGN.md §4 C18"),
+    "C19": ("fault_enumeration",
+            "runtime monitoring with injected archive-side faults: the flush worker's cleanup call over generated WAL directories (vunit), offline oracle over directory listings and archive recovery",
+            "WalCleaner::new(shard).cleanup_up_to(n) is run in conservative mode over generated WAL directories (0-6 files, gaps, ids around "
+            "99999/100000, empty / torn / blank-line files, hostile payload values) for every cut-off, in one or two passes, under each archive "
+            "fault: shard archive path is a regular file, a directory at the deterministic archive name of a subset of the eligible logs (all 16 "
+            "subsets of up to four eligible files in the enumerated plans, random beyond), a pre-existing regular file of that name (garbage / "
+            "empty / truncated archive / valid archive of other or the same entries), injected write failure for a subset. A log may disappear "
+            "only if an archive decoding to exactly its entries exists, a pass with a failing eligible log deletes nothing, logs at or above the "
+            "cut-off stay, a healthy pass deletes every eligible log, recover_all returns the archived logs in log order.",
+            "the sandbox runs as root: permission bits cannot deny, EISDIR / ENOTDIR / pre-existing files / the wa.write hook stand in; the "
+            "enumeration is complete only over fault subsets of <= 4 eligible logs, the rest is sampled",
+            "DESIGN.md §4 C19"),
 }
 
 PENDING_REASON = "check not built yet in this session (see DESIGN.md §10 for the order); no claim is made"
